@@ -17,9 +17,13 @@
    outside the property's quantifier (DESIGN 6/C07 `not a finding`).
    The one-step theorems start from an arbitrary world (any store, any state database satisfying
    the hypothesis for the object in question); C07_history shows the hypothesis is an invariant of
-   every history, add included, so they apply at every point of every history. *)
+   every history, add included, so they apply at every point of every history.
+   Fault layer (Model/IntegrityFault.v): removing the objects of one shard directory may fail with an
+   OSError that leaves check() and the whole operation; the correspondence evaluates that layer.
+   C07_fault_free_refines: without a fault it IS the pure model; C07_no_serve_under_delete_fault:
+   a tampered object is never materialised nor reported valid even if its deletion fails. *)
 From Coq Require Import NArith List Bool.
-From DvcData Require Import Base.Val Gen.Check Model.StateDbBase Model.Integrity Proofs.IntegrityProofs Proofs.IntegrityProofsFold Proofs.IntegrityProofsAdd Proofs.IntegrityProofsAddInv Proofs.IntegrityProofsExamples Proofs.IntegrityProofsHist.
+From DvcData Require Import Base.Val Gen.Check Model.StateDbBase Model.Integrity Proofs.IntegrityProofs Proofs.IntegrityProofsFold Proofs.IntegrityProofsAdd Proofs.IntegrityProofsAddInv Proofs.IntegrityProofsExamples Proofs.IntegrityProofsHist Model.IntegrityFault Proofs.IntegrityProofsFault.
 Import ListNotations.
 Open Scope N_scope.
 
@@ -128,3 +132,39 @@ Theorem C07_history_intact : forall H w h o ob, Inv H w -> ticks H w h ->
   Intact H (exec H w h) o ob.
 Proof. exact history_intact. Qed.
 Print Assumptions C07_history_intact.
+
+(* ---------------------------------------------------------------- deletion may fail *)
+(* without a configured fault the fault layer computes exactly what the pure model computes, step
+   by step, over every history: all theorems above are about what the correspondence runs *)
+Theorem C07_fault_free_refines : forall H h w,
+  frun H (FW w None false) h = (fst (run H w h), FW (snd (run H w h)) None false).
+Proof. exact frun_refines. Qed.
+Print Assumptions C07_fault_free_refines.
+
+(* whatever shard is faulty: a tampered object is never served by a checkout - file target:
+   the checkout fails and nothing is materialised; directory target: the checkout fails and every
+   materialised file comes from an entry with another id *)
+Theorem C07_no_serve_under_delete_fault : forall H fw o ob,
+  f_abort fw = false -> Tampered H (f_w fw) o ob ->
+  (fst (fst (fcheckout H fw o)) <> 0 /\ snd (fst (fcheckout H fw o)) = None) /\
+  (forall d ents n, In (n, o) ents ->
+     fst (fst (fcheckout_dir H fw d ents)) <> 0 /\
+     forall n' bs, In (n', bs) (snd (fst (fcheckout_dir H fw d ents))) ->
+                   exists o', In (n', o') ents /\ o' <> o).
+Proof.
+  intros H fw o ob A T. split. now apply (no_serve_file H fw o ob).
+  intros d ents n I. now apply (no_serve_dir H fw d ents n o ob).
+Qed.
+Print Assumptions C07_no_serve_under_delete_fault.
+
+(* ... and no query reports it valid: check fails (ObjectFormatError or the OSError), a Local
+   existence query does not list it *)
+Theorem C07_no_valid_under_delete_fault : forall H fw o ob,
+  f_abort fw = false -> Tampered H (f_w fw) o ob ->
+  fst (fcheck H fw o) <> 0 /\
+  (w_cls (f_w fw) = Local -> forall os, ~ In o (fst (foids_exist H fw os))).
+Proof.
+  intros H fw o ob A T. split. now apply (fault_check_rejects H fw o ob).
+  intros C os. now apply (fault_exists_rejects H fw o ob).
+Qed.
+Print Assumptions C07_no_valid_under_delete_fault.
